@@ -72,6 +72,9 @@ class SymDateTime(object):
     def isoweekday(self):
         return self._date.isoweekday()
 
+    def isocalendar(self):
+        return self._date.isocalendar()
+
     def sod(self):
         return self.hour * 3600 + self.minute * 60 + self.second
 
@@ -160,6 +163,16 @@ class _DatetimeClass(object):
 
     def strptime(self, s, fmt):
         return _datetime.datetime.strptime(s, fmt)
+
+    def fromisocalendar(self, year, week, day):
+        return _datetime.datetime.fromisocalendar(concretise_int(year), concretise_int(week), concretise_int(day))
+
+    def fromtimestamp(self, t, tz=None):
+        if not is_sym(t):
+            return _datetime.datetime.fromtimestamp(t, tz)
+        if tz is None:
+            raise core.Unsupported("datetime.fromtimestamp in local time")
+        return self.utcfromtimestamp(t)
 
     def now(self, *a):
         raise core.Unsupported("datetime.now")
